@@ -15,6 +15,13 @@ CHECKS = {
          "frames, each event judged by TLC.",
          "Trusts TLC/TLA+ semantics and the linearity argument in spec/MC_C01.tla; code-side coverage is the driven inputs only.",
          "DESIGN.md section 5 C01"),
+ "C02": ("TLA+ spec of frame formats and AP/PI overlays; TLC checks Icao(Build(df,addr,payload))=addr over DF 0..31 x both "
+         "lengths and its state dump is replayed (upper/lower/mixed-case hex) into icao/adsb.icao/allcall.icao; events validated "
+         "by TLC incl. a relational one-key-per-address monitor",
+         "Exhaustive over DF x length x payload pattern x 26+ addresses at spec level; implementation bound on those frames in three "
+         "letter cases, recorded traffic (cross-checked against the file's address column) and seeded random frames.",
+         "Trusts TLC and the spec's reading of Annex 10 AP/PI overlays (cross-checked against 12 000 recorded frames' address column).",
+         "DESIGN.md section 5 C02"),
 }
 
 PENDING = {}
